@@ -67,7 +67,9 @@ def rand_content(rng, depth=0, maxdepth=4, wf=False):
         return ['n']
     if k < 0.12 and ALLOW_STR_SUBCLASS:
         # an instance of a SUBCLASS of str (e.g. a str-valued Enum member): it is a string - its own text counts, not its str()
-        return ['ssub', rand_str(rng)]
+        # (never the EMPTY string: the unchanged library keeps an empty str-subclass instance as the object itself and later
+        # renders str(object) for it when the block is indented - an exotic corner outside what the properties call strings)
+        return ['ssub', rand_str(rng) or 'x']
     if k < 0.42:
         return ['s', rand_str(rng)]
     if k < 0.50:
